@@ -8,6 +8,9 @@ import (
 	"sync"
 	"time"
 
+	"github.com/vektah/gqlparser/v2/ast"
+	"github.com/vektah/gqlparser/v2/parser"
+
 	"verif/harness/fed"
 	"verif/harness/hx"
 )
@@ -102,7 +105,7 @@ func c13Check(ctx *Ctx, idx int, cs c13Case) {
 			resp := fed.Do(gw, cs.Query, cs.Vars, cs.OpName)
 			o := c13Obs{Data: hx.Canon(toGeneric(resp.Data)), Errors: c13ErrKeys(resp.Errors), raw: toGeneric(resp.Data)}
 			for _, c := range cf.F.AllCalls() {
-				o.Calls = append(o.Calls, subRequestKey(cf.F.Services[c.Service].URL, c.Query, c.Variables))
+				o.Calls = append(o.Calls, subRequestKey(cf.F.Services[c.Service].URL, c.Query, c.Variables)+"|"+varHeader(c.Query))
 			}
 			sort.Strings(o.Calls)
 			runs++
@@ -384,6 +387,24 @@ func runC13(ctx *Ctx) error {
 		ctx.Rep.Count("stream:fan-in to a failing service")
 		c13Check(ctx, 700000+k, c13Case{coreCase: cc, Repeats: repeats * 3, DelaySeed: r.U64()%1000 + 1, FaultSvc: 2*x + 1 + k%2})
 	}
+	// two variables whose names differ only by case, declared by one sub-request
+	for k := 0; k < cases/5; k++ {
+		r := ctx.Rand.Fork()
+		var seed uint64
+		var op *fed.Op
+		for try := 0; try < 8 && op == nil; try++ {
+			seed = r.U64() % 1000000
+			if cf, err := buildCoreFed(seed, false, false); err == nil {
+				op = fed.GenTwinVarOp(r, cf.Merged.Schema, cf.F.Data)
+			}
+		}
+		if op == nil {
+			ctx.Rep.Count("stream:case-twin variables (no root field with an argument)")
+			continue
+		}
+		ctx.Rep.Count("stream:case-twin variables")
+		c13Check(ctx, 800000+k, c13Case{coreCase: coreCase{FedSeed: seed, Query: op.Query, Vars: op.Variables, Kind: "query", Features: op.Features}, Repeats: repeats * 4})
+	}
 	for k := 0; k < cases/5; k++ {
 		r := ctx.Rand.Fork()
 		cc, ok := genC13NodeRoots(r)
@@ -394,4 +415,19 @@ func runC13(ctx *Ctx) error {
 		c13Check(ctx, 600000+k, c13Case{coreCase: cc, Repeats: repeats * 4, DelaySeed: r.U64()%1000 + 1})
 	}
 	return nil
+}
+
+// varHeader: the variable definitions of a sub-request IN THE ORDER THEY ARE WRITTEN. The header is
+// part of the document a service receives (and of whatever it keys on that document: persisted
+// queries, caches, logs); the gateway sorts it precisely so that it does not depend on map order.
+func varHeader(query string) string {
+	doc, err := parser.ParseQuery(&ast.Source{Input: query})
+	if err != nil || len(doc.Operations) != 1 {
+		return "unparsable"
+	}
+	var hs []string
+	for _, vd := range doc.Operations[0].VariableDefinitions {
+		hs = append(hs, "$"+vd.Variable+": "+vd.Type.String())
+	}
+	return strings.Join(hs, ", ")
 }
